@@ -12,6 +12,7 @@
 #include <cstdio>
 #include <cstdlib>
 #include <cstring>
+#include <cctype>
 #include <map>
 #include <string>
 #include <unordered_set>
@@ -474,9 +475,25 @@ int main(int argc, char **argv)
 				case RSV_DISCARD:
 					S.discard++;
 					break;
-				case RSV_KNOWN:
+				case RSV_KNOWN: {
 					S.known[res.known]++;
+					// keep the shortest input that shows a listed finding: it can serve as its probe (known/<ID>/...)
+					static std::map<std::string, size_t> best;
+					auto it = best.find(res.known);
+					if(it == best.end() || tape.size() < it->second) {
+						best[res.known] = tape.size();
+						std::string key = res.known;
+						for(auto &ch : key)
+							if(!isalnum((unsigned char)ch) && ch != '-')
+								ch = '_';
+						std::string fn = g_faildir + "/known-" + key + "." + std::to_string(getpid()) + ".tape";
+						if(FILE *kf = fopen(fn.c_str(), "wb")) {
+							fwrite(tape.data(), 1, tape.size(), kf);
+							fclose(kf);
+						}
+					}
 					break;
+				}
 				default:
 					S.inconclusive++;
 			}
